@@ -14,7 +14,7 @@ RULE = ("merged S(Q) data x three real-space functions x omitted-range option on
         "to 5 in thorough) over transform_merged / fourier_filter / apply_lorch / Keen F(Q) / Keen G(r) with arguments taken from the merged or "
         "filtered curves; every executed step is one correspondence case from the implementation's own pre-state; non-trivial = the step "
         "stores a curve that is not identically 0/1; distinct by input hash")
-OPS = ["T", "F", "L:m", "L:f", "KF:m", "KF:f", "KG:m", "KG:f", "KG:l"]
+OPS = ["T", "F", "L:m", "L:f", "L:c", "KF:m", "KF:f", "KG:m", "KG:f", "KG:l"]   # L:c = Lorch step on an r vector of the caller's own
 TITLES = ["sq", "qsq", "ft", "sqft", "fq", "gr", "grft", "grl", "gk"]
 
 
@@ -38,7 +38,7 @@ def generate(rng, tier):
     seqs = [s for n in (1, 2, 3) for s in itertools.product(OPS, repeat=n) if legal(s)]
     if tier == "quick":
         rng.shuffle(seqs)
-        seqs = [("F", "T", "F"), ("T", "F", "T"), ("F", "L:f", "KG:l"), ("T", "T"), ("F", "F")] + seqs[:40]
+        seqs = [("F", "T", "F"), ("T", "F", "T"), ("F", "L:f", "KG:l"), ("T", "T"), ("F", "F"), ("T", "L:c", "KG:l"), ("L:c",), ("F", "L:c")] + seqs[:40]
     else:
         extra = []
         for _ in range(150):
@@ -116,7 +116,10 @@ def run_impl(pystog, case):
             filt = ret
             code = 1
         elif o.startswith("L:"):
-            src = (st.q_master[st.sq_title], st.sq_master[st.sq_title], st.dr) if o.endswith("m") else (filt[0], filt[1], filt[2])
+            if o.endswith("c"):    # coarser and shifted: not the instance's own r grid
+                src = (st.q_master[st.sq_title], st.sq_master[st.sq_title], np.asarray(st.dr, float)[::2] + 0.013)
+            else:
+                src = (st.q_master[st.sq_title], st.sq_master[st.sq_title], st.dr) if o.endswith("m") else (filt[0], filt[1], filt[2])
             args = [np.asarray(a, float).tolist() for a in src]
             ret = list(st.apply_lorch(np.array(args[0]), np.array(args[1]), np.array(args[2])))
             lor = ret
@@ -198,7 +201,7 @@ def oracle(pystog, case, res):
             a = [np.array(v, float) for v in s["args"]]
             kw = {"g": {"lorch": True, "rho": m["rho"]}, "G": {"lorch": True}, "GK": {"lorch": True, "rho": m["rho"], "<b_coh>^2": m["bcoh"]}}[fn]
             _, gl, _ = getattr(tr, "S_to_" + fn)(a[0], a[1], a[2], **kw)
-            if not (same(s["ret"][1], gl) and same(post[7][1], gl)):
+            if not (same(s["ret"][0], a[2]) and same(s["ret"][1], gl) and same(post[7][0], a[2]) and same(post[7][1], gl)):
                 return "step %d: apply_lorch differs from Transformer.S_to_%s(lorch=True)" % (i, fn)
         elif s["code"] == 3:
             a = [np.array(v, float) for v in s["args"][:2]]
